@@ -1145,6 +1145,9 @@ RCP<const Set> FiniteSet::set_complement(const RCP<const Set> &o) const
         set_basic rest;
         bool left_open = other.get_left_open(),
              right_open = other.get_right_open();
+        // the container is ordered by hash, not by value: pick out the
+        // numbers strictly inside the interval and sort them numerically
+        std::vector<RCP<const Number>> inside;
         for (auto it = container_.begin(); it != container_.end(); it++) {
             if (eq(*max({*it, other.get_start()}), *other.get_start())) {
                 if (eq(**it, *other.get_start()))
@@ -1154,16 +1157,23 @@ RCP<const Set> FiniteSet::set_complement(const RCP<const Set> &o) const
             if (eq(*max({*it, other.get_end()}), **it)) {
                 if (eq(**it, *other.get_end()))
                     right_open = true;
-                break;
+                continue;
             }
             if (is_a_Number(**it)) {
-                a_num = rcp_static_cast<const Number>(*it);
-                intervals.insert(interval(last, a_num, left_open, true));
-                last = a_num;
-                left_open = true;
+                inside.push_back(rcp_static_cast<const Number>(*it));
             } else {
                 rest.insert(*it);
             }
+        }
+        std::sort(inside.begin(), inside.end(),
+                  [](const RCP<const Number> &x, const RCP<const Number> &y) {
+                      return x->sub(*y)->is_negative();
+                  });
+        for (const auto &num : inside) {
+            a_num = num;
+            intervals.insert(interval(last, a_num, left_open, true));
+            last = a_num;
+            left_open = true;
         }
 
         if (eq(*max({last, other.get_end()}), *other.get_end())) {
